@@ -94,6 +94,12 @@ func suiteTeletextSchedules(R *runner, r *rng) {
 	streams := teletextStreams(r, 3, true)
 	for _, st := range streams {
 		n := len(st.data)
+		if st.name == "big" {
+			R.note(fmt.Sprintf("teletext schedules: the big stream has %d bytes (%d packets of 188)", n, n/188))
+			if n < 70000 {
+				fatal("teletext big stream too small: %d bytes", n)
+			}
+		}
 		for _, v := range ttxVariants {
 			o := v.opts(st)
 			for _, kd := range ttxKinds {
